@@ -172,6 +172,16 @@ def _exec(w, op):
             len(w.cad); list(iter(w.cad))
         except Exception:
             pass
+        for sel in ([0], np.array([0]), (0,), slice(None), [-1], []):
+            try:
+                w.cad[sel]
+            except Exception:
+                pass
+        if hasattr(w.cad, 'by_label'):
+            try:
+                w.cad.by_label('A')
+            except Exception:
+                pass
     try:
         if k == 'new':
             _construct(w, op)
